@@ -1,5 +1,6 @@
 import Driver.Store
 import NixModel.Pure.DimLink
+import NixModel.Store.AcceptShape
 open Lean Nix.Store Nix.DimLink
 
 /-! C05 driver: the structural model's line protocol (`Driver.Store.step`) on the graph part of the
@@ -198,6 +199,82 @@ def step (s : DState) (j : Json) : DState × Json :=
     else (s, bad "C05: unknown op")
   | _ => (s, bad "C05: unknown op")
 
-def main : IO Unit := loop ({} : DState) step
+/-! ### kept handles and `extend`
+
+A program keeps the handle of an entity (`["hold", h, path]`) and offers it later — after the entity was deleted from
+its block, after another one was created under its name — to link lists, role links and features.  A handle is the
+node's key: HDF5 keeps an object alive as long as a handle to it is open, the model never drops a node. -/
+
+structure HState where
+  s : DState := {}
+  held : List (String × Handle) := []
+
+/-- the node the kept handle stands for NOW (`Handle.node`: it follows its name in its parent group) -/
+def heldKey (h : HState) (name : String) : Option Nat :=
+  (h.held.find? (fun e => e.1 == name)).map fun e => e.2.node h.s.g
+
+/-- a key of `append` / `extend` / `has`: `{"h": name}` = the kept handle, anything else as in the store protocol -/
+def parseKeyH (h : HState) (j : Json) : Option Key :=
+  match j.getObjVal? "h" with
+  | .ok (.str name) => (heldKey h name).map Key.ent
+  | _ => Driver.Store.parseKey h.s.g j
+
+def applyH (h : HState) (r : Except Nix.Err Graph) : HState × Json :=
+  match r with
+  | .ok g' => ({ h with s := { h.s with g := g' } }, ok Json.null)
+  | .error e => (h, err e)
+
+def stepH (h : HState) (j : Json) : HState × Json :=
+  let g := h.s.g
+  match (jArr j).toList with
+  | [.str "reset"] => ({}, ok Json.null)
+  | [.str "hold", .str name, pj] =>
+    match (Driver.Store.parsePath pj).bind fun p => resolve g rootLoc p with
+    | some l => ({ h with held := (name, Handle.ofLoc l) :: h.held.filter (fun e => e.1 != name) },
+                 ok (Driver.Store.ident g l.key))
+    | none => (h, bad "path")
+  | [.str "read_h", .str name] =>
+    match heldKey h name with
+    | some k => (h, ok (readEntity h.s k))
+    | none => (h, bad "handle")
+  | [.str "append_h", pj, .str cname, kj] =>
+    match Driver.Store.parsePath pj with
+    | none => (h, bad "path")
+    | some p =>
+      match openCont g p cname, parseKeyH h kj with
+      | some c, some key => applyH h (contAppend g c key)
+      | none, _ => (h, bad "container")
+      | _, none => (h, bad "key")
+  | [.str "extend", pj, .str cname, .arr ks] =>
+    match Driver.Store.parsePath pj with
+    | none => (h, bad "path")
+    | some p =>
+      match openCont g p cname, ks.toList.mapM (parseKeyH h) with
+      | some c, some keys => applyH h (contExtend g c keys)
+      | none, _ => (h, bad "container")
+      | _, none => (h, bad "key")
+  | [.str "has_h", pj, .str cname, kj] =>
+    match (Driver.Store.parsePath pj).bind fun p => openCont g p cname with
+    | some c =>
+      match parseKeyH h kj with
+      | some key =>
+        match contHas g c key with
+        | .ok b => (h, ok (Json.bool b))
+        | .error e => (h, err e)
+      | none => (h, bad "key")
+    | none => (h, bad "container")
+  | [.str "set_role_h", pj, .str role, .str name] =>
+    match Driver.Store.parsePath pj, heldKey h name with
+    | some p, some k => applyH h (setRole g p role (some k))
+    | _, _ => (h, bad "args")
+  | [.str "create_feature_h", pj, .str name, .str lt] =>
+    match Driver.Store.parsePath pj, heldKey h name with
+    | some p, some k => applyH h (createFeature g p (some k) lt)
+    | _, _ => (h, bad "args")
+  | _ =>
+    let (s', out) := step h.s j
+    ({ h with s := s' }, out)
+
+def main : IO Unit := loop ({} : HState) stepH
 
 end Driver.C05
